@@ -30,6 +30,21 @@ impl El {
 pub enum Loc {
     Top,
     Tick,
+    /// second process (wild mode: reached through the network)
+    P2,
+    /// cluster (wild mode: reached through broadcast)
+    Clu,
+}
+
+impl Loc {
+    fn handle(self) -> &'static str {
+        match self {
+            Loc::Top => "p",
+            Loc::Tick => "tick",
+            Loc::P2 => "p2",
+            Loc::Clu => "c",
+        }
+    }
 }
 
 #[derive(Clone, Copy, PartialEq, Eq, Debug)]
@@ -96,6 +111,9 @@ struct Var {
     delay: u32,
     /// depends on tick-carried state (cycle / across_ticks): no locality oracle
     carried: bool,
+    /// operator label (last class label set before the variable was created)
+    label: String,
+    args: Vec<usize>,
 }
 
 #[derive(Clone, Debug)]
@@ -129,6 +147,12 @@ pub struct Gen<'c> {
     cycle_or_defer: bool,
     uses_tick: bool,
     pending_cycles: Vec<(String, Kind)>,
+    last_class: String,
+    avoided: Vec<String>,
+    uses_p2: bool,
+    uses_cluster: bool,
+    channels: u32,
+    no_run: bool,
 }
 
 const MAP_II: &[&str] = &[
@@ -171,6 +195,12 @@ impl<'c> Gen<'c> {
             cycle_or_defer: false,
             uses_tick: false,
             pending_cycles: vec![],
+            last_class: String::new(),
+            avoided: vec![],
+            uses_p2: false,
+            uses_cluster: false,
+            channels: 0,
+            no_run: false,
         }
     }
 
@@ -179,6 +209,9 @@ impl<'c> Gen<'c> {
     }
 
     fn class(&mut self, c: &str) {
+        if self.last_class.is_empty() {
+            self.last_class = c.to_string();
+        }
         if !self.classes.iter().any(|x| x == c) {
             self.classes.push(c.to_string());
         }
@@ -191,7 +224,8 @@ impl<'c> Gen<'c> {
             self.vars[*a].uses += 1;
         }
         let id = self.vars.len();
-        self.vars.push(Var { kind, uses: 0, delay, carried });
+        let label = if args.is_empty() { "source".to_string() } else { std::mem::take(&mut self.last_class) };
+        self.vars.push(Var { kind, uses: 0, delay, carried, label, args: args.clone() });
         self.stmts.push(Stmt { res: Some(id), tmpl, args });
         id
     }
@@ -219,20 +253,20 @@ impl<'c> Gen<'c> {
     fn add_input(&mut self, el: El) -> usize {
         let name = format!("in{}", self.inputs.len());
         self.inputs.push(InSpec { name: name.clone(), ty: el.ty(), keyed: false });
-        let top = self.new_var(
-            Kind::S { el, loc: Loc::Top, bounded: false, ordered: true, once: true },
-            format!("p.embedded_input::<{}>(\"{}\")", el.rust(), name),
-            vec![],
-        );
         if self.mode == Mode::Tick {
+            // tick programs only see the batch (no top-level handle on the input)
             self.uses_tick = true;
             self.new_var(
                 Kind::S { el, loc: Loc::Tick, bounded: true, ordered: true, once: true },
-                "{0}.batch(&tick, nondet!(/** the batch is the schedule */))".into(),
-                vec![top],
+                format!("p.embedded_input::<{}>(\"{}\").batch(&tick, nondet!(/** the batch is the schedule */))", el.rust(), name),
+                vec![],
             )
         } else {
-            top
+            self.new_var(
+                Kind::S { el, loc: Loc::Top, bounded: false, ordered: true, once: true },
+                format!("p.embedded_input::<{}>(\"{}\")", el.rust(), name),
+                vec![],
+            )
         }
     }
 
@@ -243,7 +277,7 @@ impl<'c> Gen<'c> {
             El::P => ["vec![(0i64, 5i64), (1, 6), (1, 7)]", "vec![(2i64, 0i64), (0, 1)]"][self.ch.below(2)],
         };
         let loc = if self.mode == Mode::Tick { Loc::Tick } else { Loc::Top };
-        let src = if loc == Loc::Tick { "tick" } else { "p" };
+        let src = loc.handle();
         if loc == Loc::Tick {
             self.uses_tick = true;
         }
@@ -266,7 +300,7 @@ impl<'c> Gen<'c> {
                 vec![],
             );
         }
-        let src = if loc == Loc::Tick { "tick" } else { "p" };
+        let src = loc.handle();
         if loc == Loc::Tick {
             self.uses_tick = true;
         }
@@ -277,6 +311,10 @@ impl<'c> Gen<'c> {
     // ---------------------------------------------------------------- operators
     /// Try to add one random operator; returns false if the chosen operator was not applicable.
     fn step(&mut self) -> bool {
+        self.last_class.clear();
+        if self.mode == Mode::Wild && self.ch.chance(1, 2) {
+            return self.wild_step();
+        }
         let r = self.ch.below(100);
         match r {
             0..=13 => self.op_map(),
@@ -637,7 +675,10 @@ impl<'c> Gen<'c> {
                 // keyed fold -> keyed singleton; top-level bounded keyed folds are not supported
                 // by the code generator (todo!() in emit_core), so only unbounded-top or tick
                 if loc == Loc::Top && bounded {
-                    return false;
+                    if self.mode != Mode::Wild {
+                        return false;
+                    }
+                    self.class("top-bounded-keyed-agg");
                 }
                 self.class("fold_keyed");
                 self.stateful(loc);
@@ -654,7 +695,10 @@ impl<'c> Gen<'c> {
             }
             8 => {
                 if loc == Loc::Top && bounded {
-                    return false;
+                    if self.mode != Mode::Wild {
+                        return false;
+                    }
+                    self.class("top-bounded-keyed-agg");
                 }
                 self.class("reduce_keyed");
                 self.stateful(loc);
@@ -679,8 +723,11 @@ impl<'c> Gen<'c> {
                 self.new_var(Kind::KSg { v: SV::I, loc, bound: kb }, "{0}.first()".into(), vec![a]);
             }
             10 => {
-                if !once || (loc == Loc::Top && bounded) {
+                if !once || (loc == Loc::Top && bounded && self.mode != Mode::Wild) {
                     return false;
+                }
+                if loc == Loc::Top && bounded {
+                    self.class("top-bounded-keyed-agg");
                 }
                 self.class("value_counts");
                 self.stateful(loc);
@@ -804,7 +851,7 @@ impl<'c> Gen<'c> {
                     if v != SV::U || bound == SB::Unbounded {
                         return false;
                     }
-                    let src = if loc == Loc::Tick { "tick" } else { "p" };
+                    let src = loc.handle();
                     self.class("threshold");
                     self.stateful(loc);
                     self.new_var(
@@ -819,6 +866,12 @@ impl<'c> Gen<'c> {
                         return false;
                     }
                     let Some(b) = self.find(|k| matches!(k, Kind::Sg { v: SV::I, loc: l2, bound: SB::Bounded } if *l2 == loc)) else { return false };
+                    if loc == Loc::Top && self.mode == Mode::Safe {
+                        // confirmed finding (k_zip_into_stream): a top-level zip of bounded
+                        // singletons replays its value every tick; excluded by construction
+                        self.avoided.push("top-level-bounded-singleton-zip".into());
+                        return false;
+                    }
                     self.class("singleton-zip");
                     self.new_var(
                         Kind::Sg { v: SV::I, loc, bound: SB::Bounded },
@@ -900,11 +953,380 @@ impl<'c> Gen<'c> {
         true
     }
 
+    // ---------------------------------------------------------------- wild mode (C41)
+    fn wild_step(&mut self) -> bool {
+        match self.ch.below(16) {
+            0 | 1 => self.w_batch(),
+            2 | 3 => self.w_all_ticks(),
+            4 => self.w_snapshot(),
+            5 => self.w_latest(),
+            6 => self.w_tick_cycle(),
+            7 => self.w_forward_ref(),
+            8 | 9 => self.w_network(),
+            10 => self.w_sliced(),
+            11 => self.w_atomic(),
+            12 => self.w_by_ref(),
+            13 => self.w_nondet_cast(),
+            14 => self.w_filter_not_in(),
+            _ => self.op_tick_special(),
+        }
+    }
+
+    fn w_batch(&mut self) -> bool {
+        let Some(a) = self.find(|k| matches!(k, Kind::S { loc: Loc::Top, bounded: false, .. } | Kind::KS { loc: Loc::Top, bounded: false, .. })) else { return false };
+        self.uses_tick = true;
+        self.class("batch");
+        match self.vars[a].kind {
+            Kind::S { el, ordered, once, .. } => {
+                self.new_var(Kind::S { el, loc: Loc::Tick, bounded: true, ordered, once }, "{0}.batch(&tick, nondet!(/** wild */))".into(), vec![a]);
+            }
+            Kind::KS { ordered, once, .. } => {
+                self.new_var(Kind::KS { loc: Loc::Tick, bounded: true, ordered, once }, "{0}.batch(&tick, nondet!(/** wild */))".into(), vec![a]);
+            }
+            _ => unreachable!(),
+        }
+        true
+    }
+
+    fn w_all_ticks(&mut self) -> bool {
+        let Some(a) = self.find(|k| matches!(k, Kind::S { loc: Loc::Tick, .. } | Kind::KS { loc: Loc::Tick, .. } | Kind::Sg { loc: Loc::Tick, .. } | Kind::Op { loc: Loc::Tick, .. })) else { return false };
+        self.class("all_ticks");
+        match self.vars[a].kind {
+            Kind::S { el, ordered, once, .. } => {
+                self.new_var(Kind::S { el, loc: Loc::Top, bounded: false, ordered, once }, "{0}.all_ticks()".into(), vec![a]);
+            }
+            Kind::KS { ordered, once, .. } => {
+                self.new_var(Kind::KS { loc: Loc::Top, bounded: false, ordered, once }, "{0}.all_ticks()".into(), vec![a]);
+            }
+            Kind::Sg { v: SV::I, .. } => {
+                self.new_var(Kind::S { el: El::I, loc: Loc::Top, bounded: false, ordered: true, once: true }, "{0}.all_ticks()".into(), vec![a]);
+            }
+            Kind::Sg { v: SV::U, .. } => {
+                self.new_var(
+                    Kind::S { el: El::I, loc: Loc::Top, bounded: false, ordered: true, once: true },
+                    "{0}.all_ticks().map(q!(|c: usize| c as i64))".into(),
+                    vec![a],
+                );
+            }
+            Kind::Op { el, .. } => {
+                self.new_var(Kind::S { el, loc: Loc::Top, bounded: false, ordered: true, once: true }, "{0}.all_ticks()".into(), vec![a]);
+            }
+            _ => unreachable!(),
+        }
+        true
+    }
+
+    fn w_snapshot(&mut self) -> bool {
+        let Some(a) = self.find(|k| match k {
+            Kind::Sg { loc: Loc::Top, bound, .. } => *bound != SB::Bounded,
+            Kind::Op { loc: Loc::Top, bounded: false, .. } => true,
+            Kind::KSg { loc: Loc::Top, bound, .. } => !bound.value_bounded(),
+            _ => false,
+        }) else {
+            return false;
+        };
+        self.uses_tick = true;
+        self.class("snapshot");
+        match self.vars[a].kind {
+            Kind::Sg { v, .. } => {
+                self.new_var(Kind::Sg { v, loc: Loc::Tick, bound: SB::Bounded }, "{0}.snapshot(&tick, nondet!(/** wild */))".into(), vec![a]);
+            }
+            Kind::Op { el, .. } => {
+                self.new_var(Kind::Op { el, loc: Loc::Tick, bounded: true }, "{0}.snapshot(&tick, nondet!(/** wild */))".into(), vec![a]);
+            }
+            Kind::KSg { v, .. } => {
+                self.new_var(Kind::KSg { v, loc: Loc::Tick, bound: KB::Bounded }, "{0}.snapshot(&tick, nondet!(/** wild */))".into(), vec![a]);
+            }
+            _ => unreachable!(),
+        }
+        true
+    }
+
+    fn w_latest(&mut self) -> bool {
+        let Some(a) = self.find(|k| matches!(k, Kind::Sg { loc: Loc::Tick, .. } | Kind::Op { loc: Loc::Tick, .. })) else { return false };
+        self.class("latest");
+        match self.vars[a].kind {
+            Kind::Sg { v, .. } => {
+                self.new_var(Kind::Sg { v, loc: Loc::Top, bound: SB::Unbounded }, "{0}.latest()".into(), vec![a]);
+            }
+            Kind::Op { el, .. } => {
+                self.new_var(Kind::Op { el, loc: Loc::Top, bounded: false }, "{0}.latest()".into(), vec![a]);
+            }
+            _ => unreachable!(),
+        }
+        true
+    }
+
+    /// `tick.cycle()` / `cycle_with_initial`: the handle is completed at the end of the program
+    /// with a collection of exactly the declared type (always completed).
+    fn w_tick_cycle(&mut self) -> bool {
+        self.uses_tick = true;
+        self.cycle_or_defer = true;
+        let n = self.pending_cycles.len();
+        let h = format!("h{n}");
+        match self.ch.below(3) {
+            0 => {
+                let el = if self.ch.chance(1, 2) { El::I } else { El::P };
+                let ordered = self.ch.chance(1, 2);
+                let kind = Kind::S { el, loc: Loc::Tick, bounded: true, ordered, once: true };
+                let o = if ordered { "TotalOrder" } else { "NoOrder" };
+                self.class("tick-cycle-stream");
+                let id = self.new_var(
+                    kind,
+                    format!("{{ let (hh, cyc) = tick.cycle::<Stream<{}, Tick<Process<'a, ()>>, Bounded, {o}, ExactlyOnce>, _>(); {h} = Some(hh); cyc }}", el.rust()),
+                    vec![],
+                );
+                self.vars[id].carried = true;
+                self.pending_cycles.push((format!("S:{h}"), kind));
+            }
+            1 => {
+                let kind = Kind::Op { el: El::I, loc: Loc::Tick, bounded: true };
+                self.class("tick-cycle-optional");
+                let id = self.new_var(
+                    kind,
+                    format!("{{ let (hh, cyc) = tick.cycle::<Optional<i64, Tick<Process<'a, ()>>, Bounded>, _>(); {h} = Some(hh); cyc }}"),
+                    vec![],
+                );
+                self.vars[id].carried = true;
+                self.pending_cycles.push((format!("O:{h}"), kind));
+            }
+            _ => {
+                let kind = Kind::Sg { v: SV::I, loc: Loc::Tick, bound: SB::Bounded };
+                self.class("tick-cycle-with-initial");
+                let id = self.new_var(
+                    kind,
+                    format!("{{ let (hh, cyc) = tick.cycle_with_initial(tick.singleton(q!(0i64))); {h} = Some(hh); cyc }}"),
+                    vec![],
+                );
+                self.vars[id].carried = true;
+                self.pending_cycles.push((format!("G:{h}"), kind));
+            }
+        }
+        true
+    }
+
+    /// top-level forward reference; completed at the end (see `complete_handles`)
+    fn w_forward_ref(&mut self) -> bool {
+        let n = self.pending_cycles.len();
+        let h = format!("h{n}");
+        let el = if self.ch.chance(1, 2) { El::I } else { El::P };
+        let kind = Kind::S { el, loc: Loc::Top, bounded: false, ordered: false, once: true };
+        self.class("forward_ref");
+        let id = self.new_var(
+            kind,
+            format!("{{ let (hh, fwd) = p.forward_ref::<Stream<{}, Process<'a, ()>, Unbounded, NoOrder, ExactlyOnce>>(); {h} = Some(hh); fwd }}", el.rust()),
+            vec![],
+        );
+        self.vars[id].carried = true;
+        self.pending_cycles.push((format!("F:{h}:{id}"), kind));
+        true
+    }
+
+    fn w_network(&mut self) -> bool {
+        self.no_run = true;
+        let ch_name = format!("ch{}", self.channels);
+        match self.ch.below(4) {
+            0 => {
+                // process -> process 2
+                let Some(a) = self.find(|k| matches!(k, Kind::S { loc: Loc::Top, .. })) else { return false };
+                let Kind::S { el, ordered, once, .. } = self.vars[a].kind else { unreachable!() };
+                self.uses_p2 = true;
+                self.channels += 1;
+                self.class("net-o2o");
+                let ser = if self.ch.chance(1, 3) { "embedded" } else { "bincode" };
+                self.new_var(
+                    Kind::S { el, loc: Loc::P2, bounded: false, ordered, once },
+                    format!("{{0}}.send(p2, TCP.fail_stop().{ser}().name(\"{ch_name}\"))"),
+                    vec![a],
+                );
+            }
+            1 => {
+                // process 2 -> process
+                let Some(a) = self.find(|k| matches!(k, Kind::S { loc: Loc::P2, .. })) else { return false };
+                let Kind::S { el, ordered, once, .. } = self.vars[a].kind else { unreachable!() };
+                self.channels += 1;
+                self.class("net-o2o-back");
+                self.new_var(
+                    Kind::S { el, loc: Loc::Top, bounded: false, ordered, once },
+                    format!("{{0}}.send(p, TCP.fail_stop().bincode().name(\"{ch_name}\"))"),
+                    vec![a],
+                );
+            }
+            2 => {
+                // process -> cluster broadcast
+                let Some(a) = self.find(|k| matches!(k, Kind::S { loc: Loc::Top, .. })) else { return false };
+                let Kind::S { el, ordered, once, .. } = self.vars[a].kind else { unreachable!() };
+                self.uses_cluster = true;
+                self.channels += 1;
+                self.class("net-broadcast");
+                self.new_var(
+                    Kind::S { el, loc: Loc::Clu, bounded: false, ordered, once },
+                    format!("{{0}}.broadcast(c, TCP.fail_stop().bincode().name(\"{ch_name}\"), nondet!(/** wild */))"),
+                    vec![a],
+                );
+            }
+            _ => {
+                // cluster -> process (keyed by member), values only
+                let Some(a) = self.find(|k| matches!(k, Kind::S { loc: Loc::Clu, .. })) else { return false };
+                let Kind::S { el, once, .. } = self.vars[a].kind else { unreachable!() };
+                self.channels += 1;
+                self.class("net-m2o");
+                self.new_var(
+                    Kind::S { el, loc: Loc::Top, bounded: false, ordered: false, once },
+                    format!("{{0}}.send(p, TCP.fail_stop().bincode().name(\"{ch_name}\")).values()"),
+                    vec![a],
+                );
+            }
+        }
+        true
+    }
+
+    fn w_sliced(&mut self) -> bool {
+        let Some(a) = self.find(|k| matches!(k, Kind::S { el: El::I, loc: Loc::Top, bounded: false, .. })) else { return false };
+        let Kind::S { ordered, once, .. } = self.vars[a].kind else { unreachable!() };
+        let Some(b) = self.find(|k| matches!(k, Kind::Sg { v: SV::I, loc: Loc::Top, bound, .. } if *bound != SB::Bounded)) else { return false };
+        self.class("sliced");
+        self.new_var(
+            Kind::S { el: El::P, loc: Loc::Top, bounded: false, ordered, once },
+            "sliced! { let b = use::batch({0}, nondet!(/** wild */)); let s = use::snapshot({1}, nondet!(/** wild */)); b.cross_singleton(s) }".into(),
+            vec![a, b],
+        );
+        true
+    }
+
+    fn w_atomic(&mut self) -> bool {
+        let Some(a) = self.find(|k| matches!(k, Kind::S { el: El::I, loc: Loc::Top, bounded: false, .. })) else { return false };
+        let k = self.vars[a].kind;
+        self.class("atomic");
+        self.new_var(k, format!("{{0}}.atomic().map(q!({})).end_atomic()", MAP_II[0]), vec![a]);
+        true
+    }
+
+    fn w_by_ref(&mut self) -> bool {
+        let Some(a) = self.find(|k| matches!(k, Kind::S { el: El::I, loc: Loc::Tick, .. })) else { return false };
+        let Some(b) = self.find(|k| matches!(k, Kind::Sg { v: SV::I, loc: Loc::Tick, bound: SB::Bounded })) else { return false };
+        let k = self.vars[a].kind;
+        self.class("by_ref");
+        self.new_var(
+            k,
+            "{ let sg = {1}; let r = sg.by_ref(); {0}.map(q!(|x: i64| x.wrapping_add(*r))) }".into(),
+            vec![a, b],
+        );
+        true
+    }
+
+    fn w_nondet_cast(&mut self) -> bool {
+        let Some(a) = self.find(|k| matches!(k, Kind::S { .. })) else { return false };
+        let Kind::S { el, loc, bounded, ordered, once } = self.vars[a].kind else { unreachable!() };
+        if loc == Loc::Clu {
+            return false;
+        }
+        if !ordered {
+            self.class("assume_ordering");
+            self.new_var(Kind::S { el, loc, bounded, ordered: true, once }, "{0}.assume_ordering::<TotalOrder>(nondet!(/** wild */))".into(), vec![a]);
+        } else if !once {
+            self.class("assume_retries");
+            self.new_var(Kind::S { el, loc, bounded, ordered, once: true }, "{0}.assume_retries::<ExactlyOnce>(nondet!(/** wild */))".into(), vec![a]);
+        } else {
+            self.class("weaken_retries_raw");
+            self.new_var(Kind::S { el, loc, bounded, ordered, once: false }, "{0}.weaken_retries::<AtLeastOnce>()".into(), vec![a]);
+        }
+        true
+    }
+
+    fn w_filter_not_in(&mut self) -> bool {
+        let Some(a) = self.find(|k| matches!(k, Kind::S { .. })) else { return false };
+        let Kind::S { el, loc, bounded, once, .. } = self.vars[a].kind else { unreachable!() };
+        let Some(b) = self.find(|k| matches!(k, Kind::S { el: e2, loc: l2, bounded: true, once: r2, .. } if *e2 == el && *l2 == loc && *r2 == once)) else { return false };
+        self.class(if bounded { "filter_not_in" } else { "filter_not_in-unbounded-pos" });
+        let k = self.vars[a].kind;
+        self.new_var(k, "{0}.filter_not_in({1})".into(), vec![a, b]);
+        true
+    }
+
+    /// Complete every pending tick cycle / forward reference with a collection of exactly the
+    /// declared type (creating one from the declared collection itself if necessary).
+    fn complete_handles(&mut self, tail: &mut Vec<Stmt>) {
+        let pending = self.pending_cycles.clone();
+        for (tag, kind) in pending {
+            let mut parts = tag.split(':');
+            let what = parts.next().unwrap();
+            let h = parts.next().unwrap().to_string();
+            match what {
+                "S" => {
+                    let Kind::S { el, ordered, .. } = kind else { unreachable!() };
+                    // any tick stream of the element type; adapt ordering / retries with safe casts
+                    let cand = self.find(|k| matches!(k, Kind::S { el: e2, loc: Loc::Tick, once: true, .. } if *e2 == el));
+                    let Some(v) = cand else {
+                        tail.push(Stmt { res: None, tmpl: format!("{h}.take().unwrap().complete_next_tick(tick.source_iter(q!(Vec::<{}>::new())))", el.rust()), args: vec![] });
+                        continue;
+                    };
+                    let Kind::S { ordered: vo, .. } = self.vars[v].kind else { unreachable!() };
+                    let adapt = if ordered && !vo {
+                        ".assume_ordering::<TotalOrder>(nondet!(/** wild */))"
+                    } else if !ordered && vo {
+                        ".weaken_ordering::<NoOrder>()"
+                    } else {
+                        ""
+                    };
+                    self.vars[v].uses += 1;
+                    tail.push(Stmt { res: None, tmpl: format!("{h}.take().unwrap().complete_next_tick({{0}}{adapt})"), args: vec![v] });
+                }
+                "O" => {
+                    let cand = self.find(|k| matches!(k, Kind::Op { el: El::I, loc: Loc::Tick, .. }));
+                    match cand {
+                        Some(v) => {
+                            self.vars[v].uses += 1;
+                            tail.push(Stmt { res: None, tmpl: format!("{h}.take().unwrap().complete_next_tick({{0}})"), args: vec![v] });
+                        }
+                        None => tail.push(Stmt { res: None, tmpl: format!("{h}.take().unwrap().complete_next_tick(tick.none::<i64>())"), args: vec![] }),
+                    }
+                }
+                "G" => {
+                    let cand = self.find(|k| matches!(k, Kind::Sg { v: SV::I, loc: Loc::Tick, bound: SB::Bounded }));
+                    match cand {
+                        Some(v) => {
+                            self.vars[v].uses += 1;
+                            tail.push(Stmt { res: None, tmpl: format!("{h}.take().unwrap().complete_next_tick({{0}})"), args: vec![v] });
+                        }
+                        None => tail.push(Stmt { res: None, tmpl: format!("{h}.take().unwrap().complete_next_tick(tick.singleton(q!(1i64)))"), args: vec![] }),
+                    }
+                }
+                _ => {
+                    // forward reference: complete with a top-level stream that was created BEFORE
+                    // the forward reference (so it cannot depend on it): a pure forward reference
+                    let fid: usize = parts.next().unwrap().parse().unwrap();
+                    let Kind::S { el, .. } = kind else { unreachable!() };
+                    let cands: Vec<usize> = (0..fid)
+                        .filter(|i| matches!(self.vars[*i].kind, Kind::S { el: e2, loc: Loc::Top, once: true, .. } if e2 == el) && !self.vars[*i].carried)
+                        .collect();
+                    if cands.is_empty() {
+                        tail.push(Stmt {
+                            res: None,
+                            tmpl: format!("{h}.take().unwrap().complete(p.source_iter(q!(Vec::<{}>::new())).weaken_ordering::<NoOrder>())", el.rust()),
+                            args: vec![],
+                        });
+                    } else {
+                        let v = cands[self.ch.below(cands.len())];
+                        let Kind::S { ordered: vo, bounded: vb, .. } = self.vars[v].kind else { unreachable!() };
+                        let adapt = if vo { ".weaken_ordering::<NoOrder>()" } else { "" };
+                        let _ = vb;
+                        self.vars[v].uses += 1;
+                        tail.push(Stmt { res: None, tmpl: format!("{h}.take().unwrap().complete({{0}}{adapt})"), args: vec![v] });
+                    }
+                }
+            }
+        }
+    }
+
     // ---------------------------------------------------------------- outputs
     fn output_for(&mut self, v: usize, idx: usize, outs: &mut Vec<OutSpec>, tail: &mut Vec<Stmt>) -> bool {
         let name = format!("out{idx}");
         let kind = self.vars[v].kind;
         let per_tick = self.mode == Mode::Tick;
+        if matches!(kind.loc(), Loc::P2 | Loc::Clu) && !matches!(kind, Kind::S { .. }) {
+            return false;
+        }
         match kind {
             Kind::S { el, loc, ordered, once, .. } => {
                 if !once {
@@ -920,7 +1342,7 @@ impl<'c> Gen<'c> {
                     )
                 };
                 tail.push(Stmt { res: None, tmpl: format!("{{0}}{to_top}{adapt}.embedded_output(\"{name}\")"), args: vec![v] });
-                outs.push(OutSpec { name, ty: el.ty(), kind: okind, promise: None });
+                outs.push(OutSpec { name, ty: el.ty(), kind: okind, promise: None, delay: 0, shift_of: None, slice: vec![] });
             }
             Kind::KS { loc, ordered, once, .. } => {
                 if !once {
@@ -933,23 +1355,23 @@ impl<'c> Gen<'c> {
                         tmpl: format!("{{0}}.entries_partially_ordered(nondet!(/** terminal observation adapter: per-key order */)){to_top}.embedded_output(\"{name}\")"),
                         args: vec![v],
                     });
-                    outs.push(OutSpec { name, ty: El::P.ty(), kind: if per_tick { OutKind::PerTickKeyed } else { OutKind::KeyedSeq }, promise: None });
+                    outs.push(OutSpec { name, ty: El::P.ty(), kind: if per_tick { OutKind::PerTickKeyed } else { OutKind::KeyedSeq }, promise: None, delay: 0, shift_of: None, slice: vec![] });
                 } else {
                     tail.push(Stmt {
                         res: None,
                         tmpl: format!("{{0}}.entries(){to_top}.assume_ordering::<TotalOrder>(nondet!(/** terminal observation adapter: multiset */)).embedded_output(\"{name}\")"),
                         args: vec![v],
                     });
-                    outs.push(OutSpec { name, ty: El::P.ty(), kind: if per_tick { OutKind::PerTickBag } else { OutKind::Bag }, promise: None });
+                    outs.push(OutSpec { name, ty: El::P.ty(), kind: if per_tick { OutKind::PerTickBag } else { OutKind::Bag }, promise: None, delay: 0, shift_of: None, slice: vec![] });
                 }
             }
             Kind::Sg { v: sv, loc, bound } => {
                 if loc == Loc::Tick {
                     tail.push(Stmt { res: None, tmpl: format!("{{0}}.all_ticks().embedded_output(\"{name}\")"), args: vec![v] });
-                    outs.push(OutSpec { name, ty: sv.ty(), kind: OutKind::PerTickSeq, promise: None });
+                    outs.push(OutSpec { name, ty: sv.ty(), kind: OutKind::PerTickSeq, promise: None, delay: 0, shift_of: None, slice: vec![] });
                 } else if bound == SB::Bounded {
                     tail.push(Stmt { res: None, tmpl: format!("{{0}}.into_stream().embedded_output(\"{name}\")"), args: vec![v] });
-                    outs.push(OutSpec { name, ty: sv.ty(), kind: OutKind::Seq, promise: None });
+                    outs.push(OutSpec { name, ty: sv.ty(), kind: OutKind::Seq, promise: None, delay: 0, shift_of: None, slice: vec![] });
                 } else {
                     self.uses_tick = true;
                     tail.push(Stmt {
@@ -958,16 +1380,16 @@ impl<'c> Gen<'c> {
                         args: vec![v],
                     });
                     let promise = if bound == SB::Monotonic { Some(Promise::MonoSingleton) } else { None };
-                    outs.push(OutSpec { name, ty: sv.ty(), kind: OutKind::Final, promise });
+                    outs.push(OutSpec { name, ty: sv.ty(), kind: OutKind::Final, promise, delay: 0, shift_of: None, slice: vec![] });
                 }
             }
             Kind::Op { el, loc, bounded } => {
                 if loc == Loc::Tick {
                     tail.push(Stmt { res: None, tmpl: format!("{{0}}.all_ticks().embedded_output(\"{name}\")"), args: vec![v] });
-                    outs.push(OutSpec { name, ty: el.ty(), kind: OutKind::PerTickSeq, promise: None });
+                    outs.push(OutSpec { name, ty: el.ty(), kind: OutKind::PerTickSeq, promise: None, delay: 0, shift_of: None, slice: vec![] });
                 } else if bounded {
                     tail.push(Stmt { res: None, tmpl: format!("{{0}}.into_stream().embedded_output(\"{name}\")"), args: vec![v] });
-                    outs.push(OutSpec { name, ty: el.ty(), kind: OutKind::Seq, promise: None });
+                    outs.push(OutSpec { name, ty: el.ty(), kind: OutKind::Seq, promise: None, delay: 0, shift_of: None, slice: vec![] });
                 } else {
                     self.uses_tick = true;
                     tail.push(Stmt {
@@ -975,7 +1397,7 @@ impl<'c> Gen<'c> {
                         tmpl: format!("{{0}}.snapshot(&tick, nondet!(/** terminal observation adapter: per-tick snapshot */)).all_ticks().embedded_output(\"{name}\")"),
                         args: vec![v],
                     });
-                    outs.push(OutSpec { name, ty: el.ty(), kind: OutKind::Final, promise: None });
+                    outs.push(OutSpec { name, ty: el.ty(), kind: OutKind::Final, promise: None, delay: 0, shift_of: None, slice: vec![] });
                 }
             }
             Kind::KSg { v: sv, loc, bound } => {
@@ -986,7 +1408,7 @@ impl<'c> Gen<'c> {
                         tmpl: format!("{{0}}.entries().all_ticks().assume_ordering::<TotalOrder>(nondet!(/** terminal observation adapter: multiset */)).embedded_output(\"{name}\")"),
                         args: vec![v],
                     });
-                    outs.push(OutSpec { name, ty, kind: OutKind::PerTickBag, promise: None });
+                    outs.push(OutSpec { name, ty, kind: OutKind::PerTickBag, promise: None, delay: 0, shift_of: None, slice: vec![] });
                 } else if bound.value_bounded() {
                     tail.push(Stmt {
                         res: None,
@@ -994,7 +1416,7 @@ impl<'c> Gen<'c> {
                         args: vec![v],
                     });
                     let promise = if bound == KB::BoundedValue { Some(Promise::BoundedValue) } else { None };
-                    outs.push(OutSpec { name, ty, kind: OutKind::Bag, promise });
+                    outs.push(OutSpec { name, ty, kind: OutKind::Bag, promise, delay: 0, shift_of: None, slice: vec![] });
                 } else {
                     self.uses_tick = true;
                     tail.push(Stmt {
@@ -1007,12 +1429,83 @@ impl<'c> Gen<'c> {
                         KB::MonotonicValue => Some(Promise::MonoValue),
                         _ => None,
                     };
-                    outs.push(OutSpec { name, ty, kind: OutKind::Final, promise });
+                    outs.push(OutSpec { name, ty, kind: OutKind::Final, promise, delay: 0, shift_of: None, slice: vec![] });
                 }
             }
         }
         self.vars[v].uses += 1;
+        if let Some(o) = outs.last_mut() {
+            o.delay = self.vars[v].delay;
+            let mut seen = std::collections::BTreeSet::new();
+            let mut stack = vec![v];
+            let mut labels = std::collections::BTreeSet::new();
+            while let Some(x) = stack.pop() {
+                if !seen.insert(x) {
+                    continue;
+                }
+                if !self.vars[x].label.is_empty() {
+                    labels.insert(self.vars[x].label.clone());
+                }
+                stack.extend(self.vars[x].args.iter().cloned());
+            }
+            o.slice = labels.into_iter().collect();
+        }
         true
+    }
+
+    /// count / keyed fold / value_counts / keyed first on some unbounded top-level stream,
+    /// observed by a per-tick snapshot: a collection with a type promise (C33), also stateful (C28)
+    fn add_promise_output(&mut self, outs: &mut Vec<OutSpec>, tail: &mut Vec<Stmt>) {
+        let want_keyed = self.ch.chance(1, 2);
+        let idx = outs.len();
+        if want_keyed {
+            let Some(a) = self.find(|k| matches!(k, Kind::S { el: El::P, loc: Loc::Top, bounded: false, once: true, .. })) else { return };
+            let Kind::S { ordered, .. } = self.vars[a].kind else { unreachable!() };
+            let (expr, kind) = match self.ch.below(3) {
+                0 => ("{0}.into_keyed().value_counts()".to_string(), Kind::KSg { v: SV::U, loc: Loc::Top, bound: KB::MonotonicValue }),
+                1 if ordered => ("{0}.into_keyed().first()".to_string(), Kind::KSg { v: SV::I, loc: Loc::Top, bound: KB::BoundedValue }),
+                _ => {
+                    let f = if ordered {
+                        format!("q!({})", FOLD_ORD[0])
+                    } else {
+                        format!("q!({}, commutative = manual_proof!(/** commutative and associative */))", FOLD_COMM[0])
+                    };
+                    (format!("{{0}}.into_keyed().fold(q!(|| 0i64), {f})"), Kind::KSg { v: SV::I, loc: Loc::Top, bound: KB::MonotonicKeys })
+                }
+            };
+            self.class("keyed");
+            self.class("promise");
+            self.stateful_top = true;
+            let v = self.new_var(kind, expr, vec![a]);
+            self.output_for(v, idx, outs, tail);
+        } else {
+            let Some(a) = self.find(|k| matches!(k, Kind::S { loc: Loc::Top, bounded: false, once: true, .. })) else { return };
+            self.class("count");
+            self.class("promise");
+            self.stateful_top = true;
+            let v = self.new_var(Kind::Sg { v: SV::U, loc: Loc::Top, bound: SB::Monotonic }, "{0}.count()".into(), vec![a]);
+            self.output_for(v, idx, outs, tail);
+        }
+    }
+
+    /// an output together with its one-tick-deferred copy
+    fn add_shift_output(&mut self, outs: &mut Vec<OutSpec>, tail: &mut Vec<Stmt>) {
+        let Some(a) = self.find(|k| matches!(k, Kind::S { loc: Loc::Tick, once: true, .. })) else { return };
+        let k = self.vars[a].kind;
+        let base_idx = outs.len();
+        // the base stream itself as an output (it may already be used elsewhere: tee)
+        if !self.output_for(a, base_idx, outs, tail) {
+            return;
+        }
+        self.class("defer_tick");
+        self.cycle_or_defer = true;
+        let d = self.new_var(k, "{0}.defer_tick()".into(), vec![a]);
+        self.vars[d].delay += 1;
+        let idx = outs.len();
+        if self.output_for(d, idx, outs, tail) {
+            let base = format!("out{base_idx}");
+            outs.last_mut().unwrap().shift_of = Some(base);
+        }
     }
 
     pub fn build(mut self, name: &str, n_ops: usize) -> ProgSpec {
@@ -1058,6 +1551,14 @@ impl<'c> Gen<'c> {
                 }
             }
         }
+        self.complete_handles(&mut tail);
+        // extra outputs: a promise-carrying aggregate (safe mode) / a deferred copy (tick mode)
+        if self.mode == Mode::Safe && self.ch.chance(1, 2) {
+            self.add_promise_output(&mut outs, &mut tail);
+        }
+        if self.mode == Mode::Tick && self.ch.chance(1, 2) {
+            self.add_shift_output(&mut outs, &mut tail);
+        }
         self.stmts.extend(tail);
         let shared = self.vars.iter().any(|v| v.uses >= 2);
         let src = self.emit(name);
@@ -1069,6 +1570,17 @@ impl<'c> Gen<'c> {
             inputs: self.inputs.clone(),
             sing_inputs: self.sing_inputs.clone(),
             outputs: outs,
+            locs: {
+                let mut l = vec![];
+                if self.uses_p2 {
+                    l.push("p2".to_string());
+                }
+                if self.uses_cluster {
+                    l.push("c".to_string());
+                }
+                l
+            },
+            no_run: self.mode == Mode::Wild,
             traits: Traits {
                 safe: self.mode == Mode::Safe,
                 stateful_top: self.stateful_top,
@@ -1077,6 +1589,7 @@ impl<'c> Gen<'c> {
                 ops: added as u32,
                 shared,
                 classes,
+                avoided: self.avoided.clone(),
             },
         }
     }
@@ -1084,9 +1597,19 @@ impl<'c> Gen<'c> {
     fn emit(&self, name: &str) -> String {
         let mut remaining: Vec<u32> = self.vars.iter().map(|v| v.uses).collect();
         let mut s = String::new();
-        s.push_str(&format!("pub fn {name}<'a>(p: &Process<'a, ()>) {{\n"));
+        let mut params = String::from("p: &Process<'a, ()>");
+        if self.uses_p2 {
+            params.push_str(", p2: &Process<'a, ()>");
+        }
+        if self.uses_cluster {
+            params.push_str(", c: &Cluster<'a, ()>");
+        }
+        s.push_str(&format!("pub fn {name}<'a>({params}) {{\n"));
         if self.uses_tick {
             s.push_str("    let tick = p.tick();\n");
+        }
+        for i in 0..self.pending_cycles.len() {
+            s.push_str(&format!("    let mut h{i} = None;\n"));
         }
         for st in &self.stmts {
             let mut line = st.tmpl.clone();
@@ -1109,6 +1632,7 @@ impl<'c> Gen<'c> {
 pub fn generate(ch: &mut Choices, mode: Mode, prefix: &str, n: usize, max_ops: usize) -> Vec<ProgSpec> {
     let mut out = vec![];
     for i in 0..n {
+        let max_ops = if mode == Mode::Wild { max_ops + 5 } else { max_ops };
         let n_ops = 2 + ch.below(max_ops.saturating_sub(1));
         let g = Gen::new(ch, mode);
         out.push(g.build(&format!("{prefix}_{i:04}"), n_ops));
